@@ -39,10 +39,49 @@ type structCall struct {
 	outer valid.RM               // SetRule(rm)
 	typed map[interface{}]valid.RM // SetRule(rm, obj), keyed by a pointer to the struct type
 	local map[string]string      // per-call marker functions
+	alt   bool                   // go through the exported convenience wrapper of valid.go that fits the configuration
+}
+
+// viaWrapper: the same call through Struct / StructForFn / StructForFns / NestedStructForRule / ValidateStruct /
+// ValidStructForRule / ValidStructForMyValidFn when one of them expresses the configuration
+func (c structCall) viaWrapper() (string, bool) {
+	tagArgs := []string{}
+	if c.tag != "" {
+		tagArgs = []string{c.tag}
+	}
+	switch {
+	case c.outer == nil && len(c.typed) == 0 && len(c.local) == 0:
+		if c.tag == "" {
+			return errStr(valid.Struct(c.src)), true
+		}
+		return errStr(valid.ValidateStruct(c.src, tagArgs...)), true
+	case c.outer != nil && len(c.typed) == 0 && len(c.local) == 0:
+		if c.tag == "" && len(c.outer)%2 == 0 {
+			return errStr(valid.Struct(c.src, c.outer)), true
+		}
+		if len(c.outer)%3 == 0 {
+			return errStr(valid.ValidStructForRule(c.outer, c.src, tagArgs...)), true
+		}
+		return errStr(valid.StructForFn(c.src, c.outer, tagArgs...)), true
+	case c.outer != nil && len(c.typed) == 0 && len(c.local) > 0:
+		return errStr(valid.StructForFns(c.src, c.outer, fnMap(c.local), tagArgs...)), true
+	case c.outer == nil && len(c.typed) > 0 && len(c.local) == 0 && c.tag == "":
+		return errStr(valid.NestedStructForRule(c.src, c.typed)), true
+	case c.outer == nil && len(c.typed) == 0 && len(c.local) == 1:
+		for n, mk := range c.local {
+			return errStr(valid.ValidStructForMyValidFn(c.src, n, markerFn(mk), tagArgs...)), true
+		}
+	}
+	return "", false
 }
 
 func (c structCall) run() string {
 	return guard(func() string {
+		if c.alt {
+			if out, ok := c.viaWrapper(); ok {
+				return out
+			}
+		}
 		var vs *valid.VStruct
 		if c.tag != "" {
 			vs = valid.NewVStruct(c.tag)
